@@ -219,7 +219,7 @@ def check_frame(e: Engine, c: Contract, st: State, entry: State):
         allowed.setdefault(f"{owner}.{parts[-1]}", []).append(cur.v)
     # mutable parameters outside the frame keep their value
     for pname, pv in entry.store.items():
-        if pv.ty.kind in ("seq", "dict", "set") and pname not in c.modifies and pname in st.store and not pname.startswith("ghost."):
+        if pv.ty.kind in ("seq", "dict", "set") and pname not in c.modifies and pname in st.store and not pname.startswith("ghost.") and pname not in st.rebound:
             fa, fb = to_flat(st.store[pname], pv.ty), to_flat(pv, pv.ty)
             if all(x.eq(y) for x, y in zip(fa, fb)):
                 continue
